@@ -303,14 +303,35 @@ func genWS(r *hutil.Rng, n int) *WS {
 	}
 	ws.DryRun = r.Below(6) == 0
 	// a path must not be both a file and a directory
+	var dirsNeeded []string
+	addDir := func(d string) {
+		for d != "" && d != "." {
+			dirsNeeded = append(dirsNeeded, d)
+			d = filepath.Dir(d)
+		}
+	}
+	for _, f := range ws.Files {
+		addDir(filepath.Dir(f.Path))
+	}
+	for _, d := range ws.EmptyDirs {
+		addDir(d)
+	}
+	for _, d := range ws.Manifests {
+		addDir(d)
+	}
+	for _, d := range ws.RegalDirs {
+		addDir(d)
+	}
 	var others []string
 	for _, o := range ws.Others {
-		bad := occupied(o)
-		for _, d := range append(append(append([]string{}, ws.EmptyDirs...), ws.Manifests...), ws.RegalDirs...) {
-			bad = bad || d == o || strings.HasPrefix(d, o+"/")
+		if filepath.Base(o) == "README.md" {
+			addDir(filepath.Dir(o))
 		}
-		for _, r := range ws.CfgRoots {
-			_ = r
+	}
+	for _, o := range ws.Others {
+		bad := occupied(o)
+		for _, d := range dirsNeeded {
+			bad = bad || d == o
 		}
 		if !bad {
 			others = append(others, o)
